@@ -2,6 +2,7 @@ package gens
 
 import (
 	"math"
+	"unicode/utf8"
 
 	"pgregory.net/rapid"
 
@@ -66,6 +67,20 @@ func Key(t *rapid.T) string {
 	return valueKeys[sim.Intn(t, len(valueKeys), "key")]
 }
 
+// written is the key as a JSON text can carry it: every invalid byte replaced by U+FFFD.
+func written(k string) string {
+	if utf8.ValidString(k) {
+		return k
+	}
+	var b []rune
+	for i := 0; i < len(k); {
+		r, size := utf8.DecodeRuneInString(k[i:])
+		b = append(b, r) // (RuneError for an invalid byte, size 1)
+		i += size
+	}
+	return string(b)
+}
+
 func repeatTo(s string, n int) string {
 	b := make([]byte, 0, n)
 	for len(b) < n {
@@ -115,6 +130,9 @@ func Tree(t *rapid.T, depth int) any {
 	switch sim.Intn(t, max, "tkind") {
 	case 3:
 		n := sim.Intn(t, 5, "alen")
+		if n == 0 && sim.Intn(t, 4, "nilslice") == 3 {
+			return []any(nil) // a list that was never appended to
+		}
 		a := make([]any, 0, n)
 		for i := 0; i < n; i++ {
 			a = append(a, Tree(t, depth-1))
@@ -122,9 +140,20 @@ func Tree(t *rapid.T, depth int) any {
 		return a
 	case 4:
 		n := sim.Intn(t, 5, "olen")
+		if n == 0 && sim.Intn(t, 4, "nilmap") == 3 {
+			return map[string]any(nil)
+		}
 		m := make(map[string]any, n)
+		// two keys that differ in invalid bytes only become the same member name in a JSON text (each invalid byte is
+		// written as U+FFFD): such a map has no JSON text that denotes it, so the second key is not used
+		seen := map[string]bool{}
 		for i := 0; i < n; i++ {
-			m[Key(t)] = Tree(t, depth-1)
+			k := Key(t)
+			v := Tree(t, depth-1)
+			if w := written(k); !seen[w] {
+				seen[w] = true
+				m[k] = v
+			}
 		}
 		return m
 	default:
@@ -185,6 +214,9 @@ func ToGen(v any) any {
 	case string:
 		return gen.String(tv)
 	case []any:
+		if tv == nil {
+			return gen.Array(nil)
+		}
 		a := make(gen.Array, len(tv))
 		for i, e := range tv {
 			if g := ToGen(e); g != nil {
@@ -193,6 +225,9 @@ func ToGen(v any) any {
 		}
 		return a
 	case map[string]any:
+		if tv == nil {
+			return gen.Object(nil)
+		}
 		o := make(gen.Object, len(tv))
 		for k, e := range tv {
 			if g := ToGen(e); g != nil {
